@@ -4,7 +4,7 @@ from bounded.run_memory import run_iteration_scope
 from checks.common import CheckRun
 
 EXPLANATION = (
-    "B tier (bounded): programs m.write(f(m.read())) with f a chain of 1..3 arithmetic steps over the cell, constants "
+    "P tier (unbounded): MemoryBuilder._is_always_write is true exactly when the write enable is the constant 1 (literal or constant node). B tier (bounded): programs m.write(f(m.read())) with f a chain of 1..3 arithmetic steps over the cell, constants "
     "and held inputs (counter, modulo clock, accumulator, LFSR-style mix), extra readers before/after the write — "
     "compiled by the real pipeline with and without optimisation. The blueprint is simulated with the S2 tick model "
     "from the all-zero state; there must be ONE latency L in 1..10 with value(t+L) == f(value(t)) at every tick (after the "
@@ -15,6 +15,7 @@ EXPLANATION = (
 
 def run(tier):
     cr = CheckRun("C04", tier, "other", EXPLANATION, "DESIGN §4 C04")
+    cr.contracts(["contracts.c04"])
     progs = gen.c04_scope(tier)
     ticks = 48 if tier == "quick" else 120
     for optimize in (True, False):
